@@ -29,6 +29,10 @@
 //!   file rps refs recs        a stream of records cut into slices of rps records through the real writer and reader:
 //!                             obs = slice layout of the file + every column of every record read back
 //!                             (model: NV.CramRec.File.file_rt / file_layout / rec_cigar / rec_bases), see shared/c07_file.rs
+//!   sblk idx blocks opts refs samhex
+//!                             block_count / block_content_ids of the slice headers of one written container
+//!                             against the blocks that follow them (model: NV.CramRec.SliceBlocks), see
+//!                             shared/c07_sblk.rs
 //!   mdist refs recs links     HOSTILE mate distances: a written slice whose CF bits / NF values are replaced
 //!                             (CRC-sealed) through the real reader's read_mate / resolve_mates: obs = mate columns
 //!                             or ReadErr (model: NV.CramRec.File.mdist_rt), see shared/c07_mdist.rs
@@ -1331,6 +1335,9 @@ mod cfile;
 #[path = "../shared/c07_mdist.rs"]
 mod c07_mdist;
 
+#[path = "../shared/c07_sblk.rs"]
+mod sblk;
+
 fn generate(rng: &mut Rng, tier: &str, w: &mut CaseWriter) {
     cgen::generate(rng, tier, w);
     let n_mates = if tier == "thorough" { 15000 } else { 700 };
@@ -1362,6 +1369,7 @@ fn run(c: &Case) -> Obs {
         "big" => big::run_big(c),
         "file" => cfile::run_file(c),
         "mdist" => c07_mdist::run_mdist(c),
+        "sblk" => sblk::run_sblk(c),
         k => Obs::fail("-", "harness-unknown-kind", k),
     }
 }
